@@ -21,6 +21,8 @@ import (
 	"os"
 	"runtime/debug"
 	"strings"
+	"sync"
+	"sync/atomic"
 	"syscall"
 
 	"github.com/luthersystems/elps/lisp"
@@ -173,8 +175,20 @@ func confirm(bad func() bool) (always, never bool) {
 	return n == 5, n == 0
 }
 
+// confirmed counts the confirmed reports per class: core.Run keeps three cases
+// per class, further ones are only counted, so they are not re-confirmed.
+var confirmed sync.Map
+
 func report(r *core.Run, class string, k kase, expected, got string, bad func() bool) {
+	cnt, _ := confirmed.LoadOrStore(class, new(int64))
+	if atomic.LoadInt64(cnt.(*int64)) >= 3 {
+		r.Violate("c07", class, k, expected, got, "")
+		return
+	}
 	always, _ := confirm(bad)
+	if always {
+		atomic.AddInt64(cnt.(*int64), 1)
+	}
 	if !always {
 		r.Flaky(map[string]any{"class": class, "case": k, "expected": expected, "got": got})
 		return
